@@ -28,9 +28,6 @@ def setup():
     p = VERIF + '/harness/Cargo.toml'
     s = open(p).read().replace('path = "/repo/', f'path = "{REPO}/')
     open(p, 'w').write(s)
-    p = VERIF + '/harness/.cargo/config.toml'
-    s = open(p).read().replace('/verif/target/main', VERIF + '/target/main')
-    open(p, 'w').write(s)
 
 def run(patch, ids):
     env = dict(os.environ, VERIF_REPO=REPO, CARGO_NET_OFFLINE='true')
